@@ -761,10 +761,11 @@ func (fr *frame) execValue(v ssa.Value, cur *State) SV {
 		return fr.doCall(&x.Call, args, cur, x)
 	case *ssa.MakeInterface:
 		s := fr.val(x.X)
-		return SV{t: vc.makeIface(s), typ: x.Type()}
+		boxed := s
+		return SV{t: vc.makeIface(s), typ: x.Type(), dyn: &boxed}
 	case *ssa.ChangeInterface:
 		s := fr.val(x.X)
-		return SV{t: s.t, typ: x.Type()}
+		return SV{t: s.t, typ: x.Type(), dyn: s.dyn}
 	case *ssa.ChangeType:
 		s := fr.val(x.X)
 		return fr.changeType(s, x.Type())
